@@ -183,6 +183,41 @@ def shadow_variants(prog, rng, p=0.3):
     return prog, applied
 
 
+def parameter_named_like_a_later_parameters_type(prog, rng):
+    """a valid variant: an earlier PARAMETER gets the name of the type (a declared type or `int`) that a LATER parameter of
+    the same procedure is declared with - parameter types are resolved in the global table, so the later parameter keeps its
+    type; (variable declarations resolve their type with the locals first, so none of them may mention that type).  None when
+    no procedure qualifies."""
+    cands = []
+    for pi, d in enumerate(prog):
+        if d[0] != "proc":
+            continue
+        _, pname, params, vars_, stmts = d
+        local = [n for _, n, _ in params] + [n for n, _ in vars_]
+        for j in range(1, len(params)):
+            for tn in _tnames(params[j][2]):
+                if tn in local or any(tn in _tnames(ty) for _, ty in vars_):
+                    continue
+                for i in range(j):
+                    cands.append((pi, params[i][1], tn))
+    if not cands:
+        return None
+    pi, old, new = rng.choice(cands)
+    prog = list(prog)
+    prog[pi] = rename_local(prog[pi], old, new)
+    return prog
+
+
+
+def legal_shadowing(prog, rng):
+    """one of the legal shadowings above, applied to a well-typed program (used by splgen.well_typed_program itself, so that
+    every program-based check sees such programs)"""
+    prog, _ = shadow_variants(prog, rng, p=0.5)
+    if rng.random() < 0.5:
+        prog = parameter_named_like_a_later_parameters_type(prog, rng) or prog
+    return prog
+
+
 # ------------------------------------------------------------------------------------------------
 # documents
 
